@@ -525,3 +525,27 @@ def ambiguous_repeats(seq: Any) -> List[str]:
 
     visit(seq)
     return found
+
+
+def mandatory_groups(seq: Any) -> Set[int]:
+    """Numbers of the groups that have taken part in every match of `seq` (a group under `?` / `*`, or in only one
+    alternative of a branch, may not have)."""
+    out: Set[int] = set()
+    for op, av in seq:
+        if op is sre_c.SUBPATTERN:
+            if av[0] is not None:
+                out.add(av[0])
+            out |= mandatory_groups(av[3])
+        elif op in (sre_c.MAX_REPEAT, sre_c.MIN_REPEAT):
+            if int(av[0]) >= 1:
+                out |= mandatory_groups(av[2])
+        elif op is sre_c.BRANCH:
+            alts = [mandatory_groups(a) for a in av[1]]
+            if alts:
+                common = set(alts[0])
+                for a in alts[1:]:
+                    common &= a
+                out |= common
+        elif op is getattr(sre_c, "ATOMIC_GROUP", None):
+            out |= mandatory_groups(av)
+    return out
